@@ -24,6 +24,8 @@ def correspondence(ctx):
         cases.append(f'rules|um|width|{hexs([ctx.rng.choice(alpha + keys[:40]) for _ in range(n)])}')
     for s_ in long_strings(ctx, alpha + keys[:30], (60 if ctx.tier == 'quick' else 3000)):
         cases.append(f'rules|um|width|{hexs(s_)}')
+    for s_ in structured_strings(ctx, 800 if ctx.tier == 'quick' else 10000, ['filler_ascii', 'filler_2', 'filler_3', 'filler_4', 'wide', 'wide', 'wide', 'compat', 'space', 'cased']):
+        cases.append(f'rules|um|width|{hexs(s_)}')
     cases += fuzz_cases(ctx, {5})      # coverage-guided search of the tree under check (only when the source changed / thorough)
     res = run_cases(cases, ctx.work)
     keyset = set(keys)
